@@ -235,10 +235,21 @@ impl Mon {
     /// objects reachable from handles the program holds (outside handles and
     /// values it unwrapped), through handles stored in existing values
     pub fn reach(&self) -> Set {
+        self.reach_from(false)
+    }
+
+    /// like `reach`, but objects the program holds only a Weak handle to (held
+    /// outside) also count as roots while they are alive: `Weak::upgrade` gives
+    /// the program a strong handle to them again
+    pub fn reach_incl_upgradable(&self) -> Set {
+        self.reach_from(true)
+    }
+
+    fn reach_from(&self, weak_roots: bool) -> Set {
         let mut seen: Set = 0;
         let mut stack = Small::default();
         for o in self.ids() {
-            if self.ext[o as usize] > 0 && self.live(o) {
+            if (self.ext[o as usize] > 0 || (weak_roots && self.extw[o as usize] > 0)) && self.live(o) {
                 if seen & bit(o) == 0 {
                     seen |= bit(o);
                     stack.push(o);
@@ -385,7 +396,9 @@ impl Mon {
         match self.status[di] {
             Status::Live => {
                 // K1 / K13: is d reachable from what the program holds, right now?
-                let reach = self.reach();
+                // C13 speaks of what "the program can still reach": after an elided unadopt
+                // that includes objects reachable by upgrading a Weak the program holds
+                let reach = if self.pre_broken { self.reach_incl_upgradable() } else { self.reach() };
                 if reach & bit(d) != 0 {
                     let stale = self.stale_at_start || self.stale_record_involved(d);
                     if !self.pre_broken {
